@@ -203,7 +203,8 @@ class ChangeDistiller:
         self._unmatched_target_nodes = set(self._target_index) - set(pre_matched_nodes.values())
         self._bigram_histo_cache: dict[int, defaultdict[str, int]] = {}
 
-        matching_set = self._compute_matching_set() | set(pre_matched_nodes.items())
+        pre_matched_set = set(pre_matched_nodes.items())
+        matching_set = self._compute_matching_set(pre_matched_set) | pre_matched_set
         return self._generate_edit_script(dict(matching_set), delta_only)
 
     def _generate_edit_script(self, matchings: dict[int, int], delta_only: bool) -> list[Edit]:
@@ -269,9 +270,14 @@ class ChangeDistiller:
 
         return move_edits
 
-    def _compute_matching_set(self) -> set[tuple[int, int]]:
+    def _compute_matching_set(
+        self, pre_matched_set: set[tuple[int, int]] | None = None
+    ) -> set[tuple[int, int]]:
         leaves_matching_set = self._compute_leaf_matching_set()
         matching_set = leaves_matching_set.copy()
+        if pre_matched_set:
+            # Leaves matched by the caller count towards the similarity of their ancestors
+            leaves_matching_set = leaves_matching_set | pre_matched_set
 
         ordered_unmatched_source_nodes = {
             id(n): None for n in self._source.bfs() if id(n) in self._unmatched_source_nodes
